@@ -68,7 +68,7 @@ pub struct History {
     pub index_x: bool,
 }
 
-pub const N_READ_KINDS: u8 = 17;
+pub const N_READ_KINDS: u8 = 18;
 
 fn op_strategy() -> impl Strategy<Value = Op> {
     let s = 0u8..4;
@@ -789,6 +789,24 @@ impl World {
                     }
                 }
             }
+            17 => {
+                // typed variable-length expand `-[:T*1..2]->`: one row per walk of 1 or 2 edges of type T between live nodes.
+                // Histories holding a self-loop of that type are not judged (whether a walk may use one edge twice is C08's subject).
+                let t = ETYPES[arg as usize % 2];
+                let live: Vec<(u64, u64)> =
+                    st.edges.values().filter(|(a, b, ty)| *ty == t && st.nodes.contains_key(a) && st.nodes.contains_key(b)).map(|(a, b, _)| (*a, *b)).collect();
+                if live.iter().any(|(a, b)| a == b) {
+                    return None;
+                }
+                for (a, m) in &live {
+                    rows.push((vec![Ent::Node(*a), Ent::Node(*m)], format!("{a},{m}")));
+                    for (m2, b) in &live {
+                        if m2 == m {
+                            rows.push((vec![Ent::Node(*a), Ent::Node(*b)], format!("{a},{b}")));
+                        }
+                    }
+                }
+            }
             4 => scalar = Some(st.nodes.len() as i64),
             5 => {
                 let v = i64::from(arg % 4);
@@ -920,6 +938,15 @@ impl World {
                             format!("{a},{e},{b}"),
                         )),
                         _ => return Err(mismatch("expand", format!("bad row {r:?}"))),
+                    }
+                }
+            }
+            17 => {
+                let t = ETYPES[arg as usize % 2];
+                for r in self.exec_gql(si, &format!("MATCH (a)-[:{t}*1..2]->(b) RETURN id(a), id(b)"))? {
+                    match (r.first().and_then(val_i), r.get(1).and_then(val_i)) {
+                        (Some(a), Some(b)) => rows.push((vec![Ent::Node(a as u64), Ent::Node(b as u64)], format!("{a},{b}"))),
+                        _ => return Err(mismatch("varlen-expand", format!("bad row {r:?}"))),
                     }
                 }
             }
@@ -1078,7 +1105,7 @@ impl World {
             12 => k.keys().any(|e| matches!(e, Ent::Triple(_))),
             _ => {
                 obs.rows.iter().chain(exp.rows.iter()).any(|(es, _)| es.iter().any(|e| k.contains_key(e)))
-                    || (matches!(kind, 0 | 1 | 2 | 3 | 5 | 13 | 14 | 15 | 16) && k.keys().any(|e| !matches!(e, Ent::Triple(_))))
+                    || (matches!(kind, 0 | 1 | 2 | 3 | 5 | 13 | 14 | 15 | 16 | 17) && k.keys().any(|e| !matches!(e, Ent::Triple(_))))
             }
         };
         let in_tx = self.cur_tx[si].is_some();
@@ -1111,6 +1138,11 @@ impl World {
         };
         if !footprint_conflict {
             return Err(mismatch(kname, describe(&k)));
+        }
+        if kind == 17 {
+            // the rows of a variable-length expand do not name the edges they walked, so a deviation under a non-empty
+            // conflict set cannot be pinned to the conflicting entities: attributed to the first conflict class, not judged
+            return Ok(Some(ReadVerdict::Tolerated(k.values().next().copied().unwrap_or("in-place"))));
         }
         // explained by the conflict set? remove the rows that mention a conflicting entity
         let explained = match kind {
@@ -1164,6 +1196,7 @@ pub fn read_kind_name(kind: u8) -> &'static str {
         14 => "projection-y",
         15 => "range-scan",
         16 => "label-range-scan",
+        17 => "varlen-expand",
         _ => "other",
     }
 }
